@@ -327,7 +327,7 @@ func init() {
 			abort("UNSUPPORTED", "AppendUint base %d", base)
 		}
 		var out []*callResult
-		for _, r := range ex.decimalDigits(c.St, c.Args[1].(*term.Term), false) {
+		for _, r := range ex.decimalDigits(c.St, c.Args[1].(*term.Term), false, 1) {
 			add := make([]Value, len(r.out))
 			for i, b := range r.out {
 				add[i] = b
@@ -342,14 +342,14 @@ func init() {
 			abort("UNSUPPORTED", "FormatUint base %d", base)
 		}
 		var out []*callResult
-		for _, r := range ex.decimalDigits(c.St, c.Args[0].(*term.Term), false) {
+		for _, r := range ex.decimalDigits(c.St, c.Args[0].(*term.Term), false, 1) {
 			out = append(out, resultIn(r.st, StringV{B: r.out}))
 		}
 		return out
 	}
 	Stubs["strconv.Itoa"] = func(ex *Exec, c *CallCtx) []*callResult {
 		var out []*callResult
-		for _, r := range ex.decimalDigits(c.St, c.Args[0].(*term.Term), true) {
+		for _, r := range ex.decimalDigits(c.St, c.Args[0].(*term.Term), true, 1) {
 			out = append(out, resultIn(r.st, StringV{B: r.out}))
 		}
 		return out
@@ -435,6 +435,11 @@ func reflectKind(t types.Type) int {
 	return 0
 }
 
+type witnessDigits struct {
+	ds   []*term.Term
+	cons *term.Term
+}
+
 type rendered struct {
 	st  *State
 	out []*term.Term
@@ -450,7 +455,7 @@ var pow10 = func() [20]uint64 {
 }()
 
 // decimalDigits renders v in base 10 (optionally signed), splitting the state by digit count.
-func (ex *Exec) decimalDigits(st *State, v *term.Term, signed bool) []rendered {
+func (ex *Exec) decimalDigits(st *State, v *term.Term, signed bool, minDigits int) []rendered {
 	w := v.W()
 	if v.IsConst() {
 		var s string
@@ -459,7 +464,18 @@ func (ex *Exec) decimalDigits(st *State, v *term.Term, signed bool) []rendered {
 		} else {
 			s = strconv.FormatUint(v.Val, 10)
 		}
-		return []rendered{{st, Str(s).B}}
+		neg := ""
+		if len(s) > 0 && s[0] == '-' {
+			neg, s = "-", s[1:]
+		}
+		md := minDigits
+		if neg != "" {
+			md--
+		}
+		for len(s) < md {
+			s = "0" + s
+		}
+		return []rendered{{st, Str(neg + s).B}}
 	}
 	var out []rendered
 	type sideT struct {
@@ -480,15 +496,26 @@ func (ex *Exec) decimalDigits(st *State, v *term.Term, signed bool) []rendered {
 		cond *term.Term
 		side sideT
 		k    int
+		lead bool // leading zeros allowed (zero-padded minimum width)
 	}
 	var cands []cand
 	for _, sd := range sides {
 		if !ex.feasible(term.And(st.G, sd.cond), true) {
 			continue
 		}
-		for k := 1; k <= maxDigits; k++ {
+		md := minDigits
+		if sd.neg {
+			md--
+		}
+		if md < 1 {
+			md = 1
+		}
+		if md > maxDigits {
+			md = maxDigits
+		}
+		for k := md; k <= maxDigits; k++ {
 			var lo, hi *term.Term
-			if k == 1 {
+			if k == md {
 				lo = term.True()
 			} else {
 				lo = term.Uge(sd.abs, term.Const(w, pow10[k-1]))
@@ -502,7 +529,7 @@ func (ex *Exec) decimalDigits(st *State, v *term.Term, signed bool) []rendered {
 			if !ex.feasible(term.And(st.G, cond), true) {
 				continue
 			}
-			cands = append(cands, cand{cond, sd, k})
+			cands = append(cands, cand{cond, sd, k, k == md && md > 1})
 		}
 	}
 	for i, cd := range cands {
@@ -514,39 +541,54 @@ func (ex *Exec) decimalDigits(st *State, v *term.Term, signed bool) []rendered {
 			ns = st.fork(cd.cond)
 			ex.Forks++
 		}
-		// witness digits
+		// witness digits (memoised per value and digit count so that repeated renderings agree syntactically)
 		k := cd.k
-		sw := w
-		if k < 20 {
-			need := bits.Len64(pow10[k]) + 1
-			if need < sw {
-				sw = need
-			}
-		}
-		ds := make([]*term.Term, k) // ds[0] most significant
-		sum := term.Const(sw, 0)
-		for j := 0; j < k; j++ {
-			d := ex.Fresh("d", term.BV(8))
-			ds[j] = d
-			ns.G = term.And(ns.G, term.Ult(d, term.Const(8, 10)))
-			var dz *term.Term
-			if sw >= 8 {
-				dz = term.Zext(d, sw-8)
+		key := fmt.Sprintf("%d|%d|%v", cd.side.abs.ID, k, cd.lead)
+		wd, have := ex.digitMemo[key]
+		if !have {
+			sw := w
+			if k < 20 {
+				need := bits.Len64(pow10[k]) + 1
+				if need < sw {
+					sw = need
+				}
 			} else {
-				dz = term.Extract(d, sw-1, 0)
+				sw = 68 // 10^20-1 needs 67 bits: no wrap-around, so the digit vector is unique
 			}
-			sum = term.Add(sum, term.Mul(dz, term.Const(sw, pow10[k-1-j])))
+			wd.ds = make([]*term.Term, k) // ds[0] most significant
+			sum := term.Const(sw, 0)
+			var cs []*term.Term
+			for j := 0; j < k; j++ {
+				d := ex.Fresh("d", term.BV(8))
+				wd.ds[j] = d
+				cs = append(cs, term.Ult(d, term.Const(8, 10)))
+				var dz *term.Term
+				if sw >= 8 {
+					dz = term.Zext(d, sw-8)
+				} else {
+					dz = term.Extract(d, sw-1, 0)
+				}
+				sum = term.Add(sum, term.Mul(dz, term.Const(sw, pow10[k-1-j])))
+			}
+			switch {
+			case sw == w:
+				cs = append(cs, term.Eq(cd.side.abs, sum))
+			case sw > w:
+				cs = append(cs, term.Eq(term.Zext(cd.side.abs, sw-w), sum))
+			default:
+				cs = append(cs, term.Eq(cd.side.abs, term.Zext(sum, w-sw)))
+			}
+			if k > 1 && !cd.lead {
+				cs = append(cs, term.Ne(wd.ds[0], term.Const(8, 0)))
+			}
+			wd.cons = term.And(cs...)
+			if ex.digitMemo == nil {
+				ex.digitMemo = map[string]witnessDigits{}
+			}
+			ex.digitMemo[key] = wd
 		}
-		var link *term.Term
-		if sw == w {
-			link = term.Eq(cd.side.abs, sum)
-		} else {
-			link = term.Eq(cd.side.abs, term.Zext(sum, w-sw))
-		}
-		if k > 1 {
-			ns.G = term.And(ns.G, term.Ne(ds[0], term.Const(8, 0)))
-		}
-		ns.G = term.And(ns.G, link)
+		ds := wd.ds
+		ns.G = term.And(ns.G, wd.cons)
 		var bs []*term.Term
 		if cd.side.neg {
 			bs = append(bs, term.Const(8, '-'))
